@@ -219,7 +219,13 @@ func metaRun(t *testing.T, focus string) {
 		if focus != "C06" && i%3 == 2 {
 			kind = "p2p"
 		}
+		metaNextDefacs = nil
+		if focus == "C06" && i%4 == 3 {
+			// the creator asks for a default access which contains O next to an unparsable one
+			metaNextDefacs = map[string]any{"auth": "JRWPSO", "anon": []string{"Q!", "JRX", "N"}[(i/4)%3]}
+		}
 		sc := metaSetup(w, r, focus, kind)
+		metaNextDefacs = nil
 		if sc != nil {
 			metaScenario(sc, i)
 		}
@@ -298,6 +304,16 @@ func metaScenario(sc *metaScn, idx int) {
 		case 3:
 			sc.after(sc.do(own, "setOther", sc.actor("sharer"), ""))
 			sc.after(sc.do(sc.actor("sharer"), "sub", nil, "JRWPS"))
+			if sc.focus == "C06" {
+				// the topic was created with O in the requested default access: newcomers must not be able to take
+				// ownership which the owner never offered them; the same through a later {set desc defacs}
+				sc.after(sc.do(sc.actor("candidate"), "sub", nil, ""))
+				sc.after(sc.do(sc.actor("candidate"), "setSelf", nil, "JRWPSO"))
+				sc.after(sc.c08SetDesc(own, map[string]any{"defacs": map[string]any{"auth": "JRWPSO", "anon": "Z?"}}))
+				sc.after(sc.do(sc.actor("stranger"), "sub", nil, ""))
+				sc.after(sc.do(sc.actor("stranger"), "setSelf", nil, "JRWPSO"))
+				r.Hit("ownership_in_default_access")
+			}
 		}
 	} else {
 		a, b := sc.actor("peerA"), sc.actor("peerB")
